@@ -26,6 +26,9 @@ def check(run):
     eff = K.effects_of(repo)
     for name, signed in PY_KERNELS:
         f, k = projk.guards_and_block(run, repo, K.PY_U, name, signed=signed)
+        if name == 'stabilizer_measure':
+            from ..rules import rowclass as _rc
+            _rc.check_priority(run, f, k)          # scan order: a standby hit must not pre-empt an active row (destabilizers left unpaired)
         K.product_sites(run, f, floor=1)
         kinds.check_function(run, repo, f)
     for name, signed in TC_KERNELS:
